@@ -208,3 +208,346 @@ def c04_gpg(ctx, r, n_manifests, n_mut):
                 os.environ.pop('GNUPGHOME', None)
             else:
                 os.environ['GNUPGHOME'] = old_home
+
+
+# =============================================================================== C05
+G = '[GNUPG:] '
+FP = '81E12C16BD8DCD60BE180845136880E72A7B1384'
+VOCAB = [
+    G + 'NEWSIG', G + 'GOODSIG 136880E72A7B1384 gemato test key <gemato@example.com>',
+    G + 'BADSIG 136880E72A7B1384 gemato test key', G + 'EXPSIG 136880E72A7B1384 gemato test key',
+    G + 'EXPKEYSIG 136880E72A7B1384 gemato test key', G + 'REVKEYSIG 136880E72A7B1384 gemato test key',
+    G + 'ERRSIG 136880E72A7B1384 1 10 01 1790797435 9 ' + FP,
+    G + 'VALIDSIG ' + FP + ' 2026-09-30 1790797435 0 4 0 1 10 01 ' + FP,
+    G + 'VALIDSIG ' + FP + ' 2020-08-25 20200825T124012 0 4 0 1 10 01 ' + FP,
+    G + 'TRUST_UNDEFINED 0 pgp', G + 'TRUST_NEVER 0 pgp', G + 'TRUST_MARGINAL 0 pgp', G + 'TRUST_FULLY 0 pgp',
+    G + 'TRUST_ULTIMATE 0 direct', G + 'KEY_CONSIDERED ' + FP + ' 0', G + 'NO_PUBKEY 136880E72A7B1384',
+]
+
+
+class FakePopen:
+    calls = []
+    reply = (0, b'', b'')
+
+    def __init__(self, argv, stdin=None, stdout=None, stderr=None, env=None):
+        FakePopen.calls.append({'argv': list(argv), 'env': dict(env) if env is not None else None})
+
+    def communicate(self, data=None):
+        return FakePopen.reply[1], FakePopen.reply[2]
+
+    def wait(self):
+        return FakePopen.reply[0]
+
+
+class fake_popen:
+    """replace the subprocess module seen by gemato.openpgp (only there) by a shim"""
+    def __enter__(self):
+        import types
+        import subprocess
+        import gemato.openpgp as go
+        self.go = go
+        self.old = go.subprocess
+        go.subprocess = types.SimpleNamespace(Popen=FakePopen, PIPE=subprocess.PIPE)
+
+    def __exit__(self, *a):
+        self.go.subprocess = self.old
+
+
+def impl_verify_file(env, exitst, out):
+    FakePopen.reply = (exitst, out.encode('utf8'), b'stderr text')
+    with fake_popen():
+        try:
+            d = env.verify_file(io.StringIO('signed text'))
+            return ['ok', [d.fingerprint, '', '', d.primary_key_fingerprint]]
+        except Exception as e:
+            return impl.exc_sx(e)
+
+
+def c05(ctx):
+    import gemato.openpgp as go
+    quick = ctx.tier == 'quick'
+    r = ctx.rng('c05')
+    env = go.SystemGPGEnvironment()
+    cases = []
+    maxlen = 3 if quick else 4
+    for n in range(0, maxlen + 1):
+        for seq in itertools.product(VOCAB, repeat=n):
+            for ex in (0, 1, 2):
+                if ex != 0 and n == maxlen:
+                    continue
+                cases.append((ex, '\n'.join(seq) + ('\n' if seq else '')))
+    n_exh = len(cases)
+    for i in range(4000 if quick else 60000):
+        seq = [r.choice(VOCAB) for _ in range(r.randint(4, 9))]
+        cases.append((r.choice([0, 0, 0, 1, 2, -9]), r.choice(['\n', '\r\n']).join(seq) + '\n'))
+    im = [impl_verify_file(env, ex, out) for ex, out in cases]
+    model = run_model([['verify_file', ex, out] for ex, out in cases])
+    spec = run_model([['accept_spec', ex, out] for ex, out in cases])
+    acc = 0
+    for (ex, out), ii, mi, sp in zip(cases, im, model, spec):
+        mm = mi if mi[0] == 'err' else ['ok', [mi[1][0], '', '', mi[1][3]]]
+        if mm != ii:
+            ctx.violation('correspondence', 'verify_file differs between model and implementation',
+                          {'where': 'verify_file', 'exit': ex, 'status': out, 'impl': ii, 'model': mi})
+        if ii[0] == 'ok':
+            acc += 1
+            if sp[0] != 1:
+                ctx.violation('spec', 'signature data returned although the status report does not show a good, valid, '
+                              'sufficiently trusted, unexpired, unrevoked signature with exit status 0',
+                              {'exit': ex, 'status': out, 'impl': ii})
+        else:
+            if sp[0] == 1:
+                ctx.violation('spec', f'acceptable signature rejected with {ii[1]}', {'exit': ex, 'status': out, 'impl': ii})
+            elif ii[1] != [sp[1]]:
+                ctx.violation('spec', f'wrong failure class {ii[1]}, expected {sp[1]}', {'exit': ex, 'status': out})
+    ctx.count('pgp:status-sequences', len(cases), len(set(cases)),
+              samples=[{'exit': cases[-1][0], 'status': cases[-1][1], 'impl': im[-1]}],
+              dist={'bounded_exhaustive': n_exh, 'max_length': maxlen, 'accepted': acc, 'vocabulary': len(VOCAB)},
+              exhaustive=None)
+    # environment handed to gpg by the isolated environment
+    old_env = dict(os.environ)
+    iso = go.IsolatedGPGEnvironment()
+    try:
+        k = 0
+        for user in ({}, {'GNUPGHOME': '/home/user/.gnupg'}, {'GNUPGHOME': iso.home + 'x', 'TZ': 'Asia/Tokyo'},
+                     {'GNUPGHOME': '', 'http_proxy': 'http://u'}, {'TZ': 'x', 'LANG': 'C'}):
+            for proxy in (None, 'http://p:1'):
+                iso.proxy = proxy
+                os.environ.clear()
+                os.environ.update(user)
+                FakePopen.calls.clear()
+                FakePopen.reply = (0, b'', b'')
+                with fake_popen():
+                    iso._spawn_gpg(['gpg', '--version'])
+                got = FakePopen.calls[0]['env']
+                os.environ.clear()
+                os.environ.update(old_env)
+                over = [['GNUPGHOME', iso.home]] + ([['http_proxy', proxy]] if proxy else [])
+                want = run_model([['spawn_env', [[a, b] for a, b in user.items()], over]], jobs=1)[0]
+                k += 1
+                if got.get('GNUPGHOME') != iso.home:
+                    ctx.violation('spec', 'gpg not run with the private home', {'user_env': user, 'env': got})
+                if sorted(got.items()) != sorted((a, b) for a, b in want):
+                    ctx.violation('correspondence', 'spawn environment differs', {'where': 'spawn_env', 'user_env': user, 'impl': got, 'model': want})
+        ctx.count('pgp:spawn-env', k, k)
+    finally:
+        os.environ.clear()
+        os.environ.update(old_env)
+        iso.close()
+    c05_histories(ctx, r, quick)
+    c05_gpg(ctx, r, quick)
+
+
+class ScriptedEnv:
+    """openpgp_env stand-in whose verify_file accepts or raises as scripted"""
+    def __init__(self):
+        self.accept = True
+
+    def verify_file(self, f):
+        import gemato.exceptions as gx
+        f.read()
+        if not self.accept:
+            raise gx.OpenPGPVerificationFailure('scripted')
+        return 'SIGDATA'
+
+
+def c05_histories(ctx, r, quick):
+    """several loads on ONE ManifestFile instance: after every load the signed flag must be that of
+    the load just performed (Model/OpenPGP.v load_with_env is a function of the current text only)"""
+    import gemato.manifest as gm
+    good = '\n'.join([BEGIN, 'Hash: SHA512', '', 'DATA a 0', SIGBEGIN, '', 'iQEz', END]) + '\n'
+    texts = [good, good.replace('DATA a 0', 'DATA b 1'), 'DATA a 0\n', '', good + 'DATA z 9\n', 'junk\n',
+             good.replace(END + '\n', ''), 'DATA q 1\n' + good, good.replace('DATA a 0', 'DATA a'), BEGIN + '\n']
+    steps = [(t, v, a) for t in texts for v in (True, False) for a in (True, False)]
+    model = dict()
+    res = run_model([['load', t, 1 if v else 0] for t in texts for v in (True, False)], jobs=1)
+    i = 0
+    for t in texts:
+        for v in (True, False):
+            model[(t, v)] = res[i]
+            i += 1
+    n = 0
+    hist_len = 3
+    seqs = list(itertools.product(range(len(steps)), repeat=2)) if quick else None
+    if seqs is None:
+        seqs = [tuple(r.randrange(len(steps)) for _ in range(hist_len)) for _ in range(40000)]
+        seqs += list(itertools.product(range(len(steps)), repeat=2))
+    for seq in seqs:
+        m = gm.ManifestFile()
+        env = ScriptedEnv()
+        for k in seq:
+            t, v, a = steps[k]
+            env.accept = a
+            try:
+                with impl.text_file(t) as f:
+                    m.load(f, verify_openpgp=v, openpgp_env=env)
+                out = 'ok'
+            except Exception as e:
+                out = type(e).__name__
+            mi = model[(t, v)]
+            if mi[0] == 'ok' and mi[1][1] and not a:
+                want = ('OpenPGPVerificationFailure', False)
+            elif mi[0] == 'ok':
+                want = ('ok', bool(mi[1][1]))
+            else:
+                want = (mi[1][0], False)
+            got = (out, bool(m.openpgp_signed))
+            if got != want or (not got[1] and m.openpgp_signature is not None):
+                kind = 'spec' if (got[1] and not want[1]) else 'correspondence'
+                ctx.violation(kind, f'after the load sequence the Manifest object reports {got} (signature data: '
+                              f'{m.openpgp_signature is not None}), expected {want}',
+                              {'where': 'load history on one ManifestFile', 'sequence': [list(steps[j]) for j in seq]})
+                break
+        n += 1
+    ctx.count('pgp:load-histories', n, n, samples=[{'sequence_of_steps': [list(steps[j])[1:] for j in seqs[-1]]}],
+              dist={'steps': len(steps), 'history_length': 2 if quick else 3})
+
+
+def status_of(home, text):
+    rc, out, err = home.gpg(['--status-fd', '1', '--verify'], text.encode('utf8'))
+    return rc, out.decode('utf8', errors='replace')
+
+
+def c05_gpg(ctx, r, quick):
+    """real gpg: key states x validity levels; single-byte mutations; -K isolation; -s/-P flags"""
+    import gpgenv
+    import gemato.openpgp as go
+    import gemato.cli
+    import shutil
+    import tempfile
+    kd = gpgenv.keydata()
+    old_home = os.environ.get('GNUPGHOME')
+    n = 0
+    try:
+        with gpgenv.GpgHome() as signer:
+            signer.import_key(kd.PRIVATE_KEY)
+            import hashlib
+            plain = ('TIMESTAMP 2017-10-22T18:06:41Z\nDATA a 2 SHA1 ' + hashlib.sha1(b'a\n').hexdigest()
+                     + '\nIGNORE x\\x20y\n')
+            rc, signed, _ = signer.clearsign(plain)
+            assert rc == 0, 'clearsign failed'
+            # 1. key states and owner-trust levels in a trust-model direct home
+            states = [('valid', kd.VALID_PUBLIC_KEY), ('expired', kd.EXPIRED_PUBLIC_KEY), ('revoked', kd.REVOKED_PUBLIC_KEY),
+                      ('other', kd.OTHER_VALID_PUBLIC_KEY), ('none', None), ('with-subkey', kd.VALID_KEY_SUBKEY)]
+            for name, key in states:
+                for ot in ((6, 5, 4, 3, 2, None) if name == 'valid' else (6,)):
+                    with gpgenv.GpgHome() as h:
+                        if key is not None:
+                            h.import_key(key, ownertrust=ot)
+                        os.environ['GNUPGHOME'] = h.home
+                        env = go.SystemGPGEnvironment()
+                        try:
+                            env.verify_file(io.StringIO(signed))
+                            res = ['ok']
+                        except Exception as e:
+                            res = impl.exc_sx(e)
+                        rc, st = status_of(h, signed)
+                        sp = run_model([['accept_spec', rc, st]], jobs=1)[0]
+                        n += 1
+                        if (res[0] == 'ok') != (sp[0] == 1) or (res[0] == 'err' and res[1] != [sp[1]]):
+                            ctx.violation('spec', f'key state {name}, ownertrust {ot}: outcome {res} but gpg reported (exit {rc}) a status for which '
+                                          f'the specification says accept={sp[0]} / failure {sp[1]}',
+                                          {'key_state': name, 'ownertrust': ot, 'gpg_status': st, 'impl': res})
+                        ctx.cov['engines'].setdefault('pgp:real-gpg-keystates', {}).setdefault('outcomes', {})[f'{name}/{ot}'] = res[0] if res[0] == 'ok' else res[1][0]
+            # 2. single-byte mutations of the signed text (valid key, ultimate trust)
+            with gpgenv.GpgHome() as h:
+                h.import_key(kd.VALID_PUBLIC_KEY)
+                os.environ['GNUPGHOME'] = h.home
+                env = go.SystemGPGEnvironment()
+                body_start = signed.index('\n\n') + 2
+                body_end = signed.index('-----BEGIN PGP SIGNATURE-----')
+                pos = list(range(len(signed)))
+                if quick:
+                    pos = sorted(set(r.sample(pos, 120) + list(range(body_start, body_end, 2))))
+                rejected = 0
+                for i in pos:
+                    c = signed[i]
+                    c2 = 'b' if c != 'b' else 'c'
+                    t = signed[:i] + c2 + signed[i + 1:]
+                    try:
+                        env.verify_file(io.StringIO(t))
+                        ok = True
+                    except go.GematoException if hasattr(go, 'GematoException') else Exception:
+                        ok = False
+                    n += 1
+                    if ok and body_start <= i < body_end and not c.isspace():
+                        ctx.violation('spec', 'a changed signed byte was not detected', {'position': i, 'text': t})
+                    rejected += (not ok)
+                ctx.cov['engines'].setdefault('pgp:real-gpg-keystates', {})['byte_mutations'] = {'tried': len(pos), 'rejected': rejected}
+            # 3. CLI: -K isolation against the user's own keyring; -s / -P
+            td = tempfile.mkdtemp(prefix='gv-c05-')
+            try:
+                tree = os.path.join(td, 'tree')
+                os.mkdir(tree)
+                open(os.path.join(tree, 'a'), 'w').write('a\n')
+                open(os.path.join(tree, 'Manifest'), 'w').write(signed)
+                utree = os.path.join(td, 'utree')
+                os.mkdir(utree)
+                open(os.path.join(utree, 'a'), 'w').write('a\n')
+                open(os.path.join(utree, 'Manifest'), 'w').write(plain)
+                kfiles = {}
+                for nm, key in (('valid', kd.VALID_PUBLIC_KEY), ('other', kd.OTHER_VALID_PUBLIC_KEY), ('revoked', kd.REVOKED_PUBLIC_KEY)):
+                    kfiles[nm] = os.path.join(td, nm + '.key')
+                    open(kfiles[nm], 'wb').write(key)
+                user_homes = [('empty', None), ('signer-ultimate', kd.VALID_PUBLIC_KEY), ('other-keys', kd.OTHER_VALID_PUBLIC_KEY)]
+                for uname, ukey in user_homes:
+                    with gpgenv.GpgHome(trust_model='pgp') as uh:
+                        if ukey is not None:
+                            uh.import_key(ukey, ownertrust=6)
+                        uh.gpg(['--list-keys'])
+                        subprocess_kill(uh)
+                        before = uh.snapshot()
+                        os.environ['GNUPGHOME'] = uh.home
+                        for kname in ('valid', 'other', 'revoked'):
+                            for flags in ([], ['-s']):
+                                rcode = run_cli(['gemato', 'verify', '-K', kfiles[kname], '-R'] + flags + [tree])
+                                n += 1
+                                want = 0 if kname == 'valid' else 1
+                                if rcode != want:
+                                    ctx.violation('spec', f'verify -K {kname}.key {flags} with user keyring "{uname}" exited {rcode}, expected {want}: '
+                                                  'only the keys of the key file may count',
+                                                  {'user_keyring': uname, 'key_file': kname, 'flags': flags})
+                        subprocess_kill(uh)
+                        after = uh.snapshot()
+                        if before != after:
+                            ctx.violation('spec', 'the user keyring was modified while an isolated environment was in use',
+                                          {'user_keyring': uname, 'changed': sorted(k for k in set(before) | set(after) if before.get(k) != after.get(k))})
+                # -s / -P on signed and unsigned trees, system environment holding the valid key
+                with gpgenv.GpgHome() as uh:
+                    uh.import_key(kd.VALID_PUBLIC_KEY)
+                    os.environ['GNUPGHOME'] = uh.home
+                    for tr, signed_tree in ((tree, True), (utree, False)):
+                        for flags, want in (([], 0), (['-s'], 0 if signed_tree else 1), (['-P'], 0), (['-s', '-P'], 1)):
+                            rcode = run_cli(['gemato', 'verify'] + flags + [tr])
+                            n += 1
+                            if rcode != want:
+                                ctx.violation('spec', f'verify {flags} on a {"signed" if signed_tree else "unsigned"} tree exited {rcode}, expected {want}',
+                                              {'flags': flags, 'signed_tree': signed_tree})
+            finally:
+                shutil.rmtree(td, ignore_errors=True)
+    finally:
+        if old_home is None:
+            os.environ.pop('GNUPGHOME', None)
+        else:
+            os.environ['GNUPGHOME'] = old_home
+    ctx.count('pgp:real-gpg-keystates', n, n, samples=[{'real_gpg_operations': n}])
+
+
+def subprocess_kill(h):
+    import subprocess
+    subprocess.run(['gpgconf', '--kill', 'all'], env=h.env, stdout=subprocess.DEVNULL, stderr=subprocess.DEVNULL)
+
+
+def run_cli(argv):
+    import logging
+    import gemato.cli
+    logging.disable(logging.CRITICAL)
+    try:
+        try:
+            return gemato.cli.main(argv)
+        except SystemExit as e:
+            return e.code if isinstance(e.code, int) else 2
+        except Exception as e:
+            return 'exception:' + type(e).__name__
+    finally:
+        logging.disable(logging.NOTSET)
